@@ -295,17 +295,23 @@ Proof.
   intros mt h b s s' H. unfold parse_body_plain in H. inv_ok; reflexivity.
 Qed.
 
+Lemma body_phase_gp : forall p d, gp (body_phase filename_of false p d).
+Proof.
+  intros p d s s' H. unfold body_phase in H.
+  destruct (hvals (e_hdr p) hdr_content_disposition) as [|c cd].
+  - inv_ok; reflexivity.
+  - now apply attachment_embed_gp in H.
+Qed.
+
 Lemma part_step_gp : forall sub p, gp sub -> gp (part_step filename_of false sub p).
 Proof.
   intros sub p Hsub s s' H. unfold part_step in H.
   apply bind_ok_inv in H. destruct H as [[st1 drained] [H1 H]].
   assert (G1 : m_gen st1 = m_gen s).
-  { destruct (hvals (e_hdr p) hdr_content_type) as [|c0 [|c1 r]]; try (inversion H1; reflexivity).
+  { unfold nested_phase in H1.
+    destruct (hvals (e_hdr p) hdr_content_type) as [|c0 [|c1 r]]; try (inversion H1; reflexivity).
     inv_ok; try reflexivity; apply Hsub; assumption. }
-  rewrite <- G1. clear H1 G1.
-  destruct (hvals (e_hdr p) hdr_content_disposition) as [|c cd].
-  - inv_ok; reflexivity.
-  - now apply attachment_embed_gp in H.
+  rewrite <- G1. now apply body_phase_gp in H.
 Qed.
 
 Lemma run_parts_gp : forall steps end_ok, Forall gp steps -> gp (run_parts steps end_ok).
@@ -427,3 +433,58 @@ Qed.
 Lemma roundtrip_semicolon_refuted :
   roundtrip_filename (bs "a;b.txt") = Ok (bs """a") /\ has 59 (bs "a;b.txt") = true.
 Proof. split; vm_compute; reflexivity. Qed.
+
+(* ---------- the encoding of a body part depends on the part's own header only ---------- *)
+Lemma go_index_0_inv : forall A (l : list A) x, go_index l 0 = Ok x -> exists t, l = x :: t.
+Proof.
+  intros A l x H. unfold go_index in H. destruct l as [|y t].
+  - cbn in H. discriminate.
+  - destruct ((0 <=? 0)%Z && (0 <? ilen (y :: t))%Z)%bool; [|discriminate].
+    cbn in H. inversion H; subst. now eexists.
+Qed.
+
+Lemma body_phase_enc_local : forall fnof legacy p d st1 st',
+  hvals (e_hdr p) hdr_content_disposition = [] ->
+  body_phase fnof legacy p d st1 = Ok st' ->
+  st' = st1 \/
+  exists ct cs enc, st' = set_parts st1 (m_parts st1 ++ [mkp ct cs enc]) /\
+                    part_enc_of_hdr (e_hdr p) = Some enc.
+Proof.
+  intros fnof legacy p d st1 st' Hcd H. unfold body_phase in H. rewrite Hcd in H.
+  destruct (negb (d || read_ok (e_bits p))); [discriminate|].
+  destruct (hvals (e_hdr p) hdr_content_type) as [|c0 cts]; [discriminate|].
+  apply bind_ok_inv in H. destruct H as [ct0 [_ H]].
+  apply bind_ok_inv in H. destruct H as [[contentType optional] [_ H]].
+  destruct (eqfold contentType type_multipart_related
+            || negb legacy && eqfold contentType type_multipart_alternative)%bool.
+  - left. now inversion H.
+  - apply bind_ok_inv in H. destruct H as [e0 [He0 H]].
+    apply go_index_0_inv in He0. destruct He0 as [t Ht].
+    destruct (classify_cte e0) as [enc|] eqn:Ec; [|discriminate].
+    destruct (bytes_eqb enc enc_b64 && negb (d || b64d_ok (e_bits p)))%bool; [discriminate|].
+    right. exists contentType. eexists. exists enc. split; [now inversion H|].
+    unfold part_enc_of_hdr. now rewrite Ht.
+Qed.
+
+(* two runs of the same part from ANY two predecessor states (and whatever was parsed before):
+   if each appends a body part, the two parts carry the same encoding *)
+Lemma part_enc_independent : forall fnof legacy p d1 d2 s1 s2 s1' s2' x1 x2,
+  hvals (e_hdr p) hdr_content_disposition = [] ->
+  body_phase fnof legacy p d1 s1 = Ok s1' -> body_phase fnof legacy p d2 s2 = Ok s2' ->
+  m_parts s1' = m_parts s1 ++ [x1] -> m_parts s2' = m_parts s2 ++ [x2] ->
+  p_enc x1 = p_enc x2 /\ part_enc_of_hdr (e_hdr p) = Some (p_enc x1).
+Proof.
+  intros fnof legacy p d1 d2 s1 s2 s1' s2' x1 x2 Hcd H1 H2 E1 E2.
+  assert (K : forall d s s' x, body_phase fnof legacy p d s = Ok s' -> m_parts s' = m_parts s ++ [x] ->
+              part_enc_of_hdr (e_hdr p) = Some (p_enc x)).
+  { intros d s s' x H E. destruct (body_phase_enc_local _ _ _ _ _ _ Hcd H) as [->|[ct [cs [enc [-> He]]]]].
+    - exfalso. assert (L : length (m_parts s) = length (m_parts s ++ [x])) by now rewrite <- E.
+      rewrite app_length in L. cbn in L. lia.
+    - cbn [set_parts m_parts] in E. apply app_inv_head in E. inversion E; subst. exact He. }
+  pose proof (K _ _ _ _ H1 E1) as K1. pose proof (K _ _ _ _ H2 E2) as K2.
+  split; [congruence | exact K1].
+Qed.
+
+(* a quoted-printable part (header stripped by the stdlib reader) is quoted-printable whatever precedes it *)
+Lemma part_enc_default_qp : forall h, hvals h hdr_content_transfer_enc = [] -> part_enc_of_hdr h = Some enc_qp.
+Proof. intros h H. unfold part_enc_of_hdr, part_cte. rewrite H. vm_compute. reflexivity. Qed.
